@@ -66,6 +66,15 @@ fn window_invariants(w: &World, prop: &str, align: usize) -> Option<Violation> {
 /// Conservation inside the receiver: the bytes it holds (hook: window.end - window.start) are
 /// exactly the bytes delivered to it minus the bytes consumed by dropped guards.
 pub fn receiver_conservation(w: &World, prop: &str) -> Option<Violation> {
+    // the end of the stream is stable: once Closed was reported with the stream exhausted, no
+    // later recv() hands out a message
+    if let Some(fc) = w.recvs.iter().position(|r| matches!(r.outcome, RecvOutcome::Closed) && r.stream_exhausted) {
+        for (i, r) in w.recvs.iter().enumerate().skip(fc + 1) {
+            if let RecvOutcome::Msg { val, .. } = &r.outcome {
+                return v(prop, "2-sequence", "spurious", "recv", format!("recv #{} returned a message ({}) after recv #{} had reported Closed at the end of the stream", i, val.short(), fc));
+            }
+        }
+    }
     for (i, r) in w.recvs.iter().enumerate() {
         if matches!(r.outcome, RecvOutcome::Panic(_) | RecvOutcome::InFlight | RecvOutcome::Waiting) {
             continue;
@@ -233,10 +242,15 @@ pub fn check_delivery(w: &World, plan: &Plan, prop: &str, is_async: bool) -> Opt
             return v(prop, "2-sequence", "no-closed", "recv", format!("after all messages the receiver ended with {} instead of Closed", o));
         }
     }
+    // (a harness policy asks once more after the final Closed in some runs: the end is stable)
+    let first_closed = w.recvs.iter().position(|r| matches!(r.outcome, RecvOutcome::Closed)).unwrap_or(usize::MAX);
     for (i, r) in w.recvs.iter().enumerate() {
         match &r.outcome {
-            RecvOutcome::Msg { .. } => {}
-            RecvOutcome::Closed if i + 1 == w.recvs.len() => {}
+            RecvOutcome::Msg { .. } if i < first_closed => {}
+            RecvOutcome::Msg { val, .. } => {
+                return v(prop, "2-sequence", "spurious", "recv", format!("recv #{} returned a message ({}) after Closed had been reported", i, val.short()));
+            }
+            RecvOutcome::Closed if i >= first_closed => {}
             other => {
                 let o = format!("{:?}", other);
                 let o: String = o.chars().take(160).collect();
